@@ -23,8 +23,9 @@ WALL_CAP = {'quick': 200, 'thorough': 3300}
 
 OPS = ['connect', 'status', 'disc', 'disc_imm', 'wait_play', 'wait_quiet',
        'sleep']
-BEHS = ['long', 'long', 'pdisc', 'ldisc', 'cut', 'rst', 'close_accept']
-FAULTY = ('cut', 'rst', 'close_accept')
+BEHS = ['long', 'long', 'long', 'pdisc', 'pdisc', 'ldisc', 'ldisc', 'cut',
+        'cut', 'rst', 'rst', 'close_accept', 'close_accept', 'stall']
+FAULTY = ('cut', 'rst', 'close_accept', 'stall')
 
 _enum_cache = {}
 ENUM_ROUNDS = {'quick': 5, 'thorough': 60}
@@ -50,6 +51,11 @@ def beh_script(kind, proto, rng=None, cutk=None):
         b['play'] = [['ka', 1], ['pause', 2000], ['rst']]
     elif kind == 'close_accept':
         b['close_on_accept'] = True
+    elif kind == 'stall':
+        # a hung server: part of a frame, then silence; it does not even
+        # answer the client's FIN by closing
+        b['play'] = [['ka', 1], ['raw', '20010203']]
+        b['ignore_fin'] = True
     return b
 
 
